@@ -163,6 +163,21 @@ impl SpecTxBuilder {
         let fb = if channel_parameters.is_outbound_from_holder { r.1.local_balance_before_fee_msat } else { r.1.remote_balance_before_fee_msat };
         fb as int / 1000 >= r.1.commit_tx_fee_sat ==> outputs + r.1.commit_tx_fee_sat <= cv
     }),
+//@ensures P C01 a-balance-output-is-present-with-its-full-value-exactly-when-that-value-reaches-the-broadcasters-dust-limit-so-both-sides-build-the-same-transaction
+    ({
+        let fee = r.1.commit_tx_fee_sat as int;
+        let ls = r.1.local_balance_before_fee_msat as int / 1000;
+        let rs = r.1.remote_balance_before_fee_msat as int / 1000;
+        let value_to_self = if channel_parameters.is_outbound_from_holder { if ls >= fee { ls - fee } else { 0 } } else { ls };
+        let value_to_remote = if channel_parameters.is_outbound_from_holder { rs } else { if rs >= fee { rs - fee } else { 0 } };
+        let b = if local { value_to_self } else { value_to_remote };
+        let c = if local { value_to_remote } else { value_to_self };
+        &&& r.0.to_broadcaster_value_sat == (if b >= broadcaster_dust_limit_satoshis { b } else { 0 })
+        &&& r.0.to_countersignatory_value_sat == (if c >= broadcaster_dust_limit_satoshis { c } else { 0 })
+    }),
+//@ensures P C01 each-sides-balance-before-the-fee-is-its-share-less-its-own-pending-htlcs-dust-or-not-and-less-the-anchors-if-it-funds-the-channel
+    r.1.local_balance_before_fee_msat == value_to_self_msat - dir_sum(htlcs_in_tx@, local) - (if channel_parameters.is_outbound_from_holder { 1000 * anchors_spec(&channel_parameters.channel_type_features) } else { 0 }),
+    r.1.remote_balance_before_fee_msat == channel_parameters.channel_value_satoshis * 1000 - value_to_self_msat - dir_sum(htlcs_in_tx@, !local) - (if channel_parameters.is_outbound_from_holder { 0 } else { 1000 * anchors_spec(&channel_parameters.channel_type_features) }),
 //@ensures P C01 kept-HTLCs-are-exactly-the-non-dust-ones
     r.0.nondust_htlcs@.len() == kept(htlcs_in_tx@, feerate_per_kw as int, broadcaster_dust_limit_satoshis as int, &channel_parameters.channel_type_features).len(),
     r.1.commit_tx_fee_sat == commit_fee_spec(feerate_per_kw as int, kept(htlcs_in_tx@, feerate_per_kw as int, broadcaster_dust_limit_satoshis as int, &channel_parameters.channel_type_features).len() as int, &channel_parameters.channel_type_features),
